@@ -419,7 +419,9 @@ class WorkerPool:
         with self._lock:
             self._active -= 1
 
-            if self._closed:
+            if self._closed or self._max_idle == 0:
+                # max_idle == 0 means "keep nothing": evicting the oldest idle
+                # worker cannot make room when there is none to evict.
                 self._discards += 1
                 transport.close()
                 return
